@@ -88,6 +88,9 @@ type SASLConfig struct {
 	// "" none, "handshake-error", "bad-server-first", "bad-server-final", "close-after-handshake",
 	// "close-mid", "auth-error"
 	Sabotage string
+	// RawReply, when set, replaces the broker's answer to a raw (handshake v0)
+	// token: the bytes to deliver, and whether the broker closes afterwards.
+	RawReply func(tokLen int) (frame []byte, closeAfter bool)
 	// observations
 	Accepted []string // connection ids ("c<N>") that were authenticated
 	Rejected []string
@@ -302,6 +305,17 @@ func (c *Cluster) saslRawToken(b *Broker, cn *Conn, st *connState, tok []byte) {
 	if c.SASL.Sabotage == "close-mid" {
 		c.S.Count("fault:sasl-close")
 		cn.ServerClose()
+		return
+	}
+	if c.SASL.RawReply != nil {
+		// a hostile broker: the scenario supplies the raw bytes of the reply
+		// and what happens to the connection afterwards
+		c.S.Count("fault:sasl-raw-hostile-length")
+		frame, closeAfter := c.SASL.RawReply(len(tok))
+		c.S.After(c.N.latency(), fmt.Sprintf("c%d:sasl-token", cn.ID), func() { cn.Deliver(frame) })
+		if closeAfter {
+			c.S.After(2*c.N.latency(), fmt.Sprintf("c%d:sasl-close", cn.ID), func() { cn.ServerClose() })
+		}
 		return
 	}
 	out, done, fail := c.saslStep(cn, st, tok)
